@@ -45,6 +45,115 @@ Proof.
   - intro H. apply IH in H. lia.
 Qed.
 
+(* ------------------------------------------------------------------ what a parsed Message looks like *)
+Definition nul_free (s : bytes) : Prop := nul_index s 0 = None.
+Definition fix_ok (ft : ftype) (bs : bytes) : Prop :=
+  match ft with TBool => bs = [x00] \/ bs = [x01] | _ => len bs = cpp_size ft end.
+
+(* every item has the kind its field's type code calls for, fixed-width items have exactly their width (bools are 0/1),
+   strings and field names hold no NUL, what-codes and type codes are 32-bit values -- at every nesting level *)
+Fixpoint shape_msg (m : msg) : Prop :=
+  match m with Msg w fs => w < two32 /\ shape_fields fs end
+with shape_fields (fs : fields) : Prop :=
+  match fs with
+  | FNil => True
+  | FCons n tc r t => nul_free n /\ tc < two32 /\ shape_repr (ftype_of_tc tc) r /\ shape_fields t
+  end
+with shape_repr (ft : ftype) (r : repr) {struct r} : Prop :=
+  match r with RInline i => shape_item ft i | RArray l => shape_items ft l end
+with shape_item (ft : ftype) (i : item) {struct i} : Prop :=
+  match i with
+  | IFix bs => ft_fixed ft = true /\ fix_ok ft bs
+  | IStr s => ft = TString /\ nul_free s
+  | IRaw _ => ft = TRaw
+  | IMsg m => ft = TMessage /\ shape_msg m
+  | IOpaque _ => False
+  end
+with shape_items (ft : ftype) (l : items) {struct l} : Prop :=
+  match l with INil => True | ICons i t => shape_item ft i /\ shape_items ft t end.
+
+Lemma shape_items_snoc ft l i : shape_items ft l -> shape_item ft i -> shape_items ft (items_snoc l i).
+Proof.
+  unfold items_snoc. induction l as [|j t IH]; cbn [items_app shape_items]; intros H Hi; [tauto|].
+  destruct H as [Hj Ht]. split; [exact Hj | apply IH; assumption].
+Qed.
+
+Lemma shape_fields_snoc fs n tc r :
+  shape_fields fs -> nul_free n -> tc < two32 -> shape_repr (ftype_of_tc tc) r -> shape_fields (fsnoc fs n tc r).
+Proof.
+  unfold fsnoc. induction fs as [|k tc' r' t IH]; cbn [fapp shape_fields]; intros H Hn Ht Hr; [tauto|].
+  destruct H as (A & B & C & D). repeat split; try assumption. apply IH; assumption.
+Qed.
+
+(* fset keeps the stored type code of the entry it overwrites; the caller passes that same code *)
+Lemma shape_fields_set fs n tc r :
+  shape_fields fs -> (forall tc' r', flookup n fs = Some (tc', r') -> tc = tc') ->
+  shape_repr (ftype_of_tc tc) r -> shape_fields (fset n tc r fs).
+Proof.
+  induction fs as [|k tc' r' t IH]; cbn [fset shape_fields flookup]; intros H Hl Hr; [exact I|].
+  destruct H as (A & B & C & D). destruct (bytes_eqb n k) eqn:E.
+  - specialize (Hl tc' r' eq_refl). subst tc'. cbn [shape_fields]. repeat split; assumption.
+  - cbn [shape_fields]. repeat split; try assumption. apply IH; assumption.
+Qed.
+
+Lemma nul_index_none w : forall i j, nul_index w i = None -> nul_index w j = None.
+Proof.
+  induction w as [|b t IH]; intros i j; cbn [nul_index]; [reflexivity|].
+  destruct (is_nul b); [discriminate | apply IH].
+Qed.
+
+(* the bytes before the first NUL hold none *)
+Lemma nul_index_prefix w : forall i k, nul_index w i = Some k -> nul_free (takeN (k - i) w).
+Proof.
+  unfold nul_free. induction w as [|b t IH]; intros i k; cbn [nul_index]; [discriminate|].
+  destruct (is_nul b) eqn:Eb.
+  - intro H; injection H as <-. rewrite N.sub_diag. cbn [takeN]. reflexivity.
+  - intro H. pose proof (nul_index_bounds _ _ _ H) as [Hb _].
+    cbn [takeN]. destruct (N.eqb_spec (k - i) 0) as [Hz|Hz]; [reflexivity|].
+    cbn [nul_index]. rewrite Eb.
+    specialize (IH (N.succ i) k H). apply (nul_index_none _ 0 (N.succ 0)).
+    replace (N.pred (k - i)) with (k - N.succ i) by lia. exact IH.
+Qed.
+
+Lemma takeN_takeN {A} (a b : N) (l : list A) : a <= b -> takeN a (takeN b l) = takeN a l.
+Proof.
+  revert a b; induction l as [|x t IH]; intros a b H; cbn [takeN]; [reflexivity|].
+  destruct (N.eqb_spec b 0) as [->|Hb].
+  - replace a with 0 by lia. cbn [takeN]. reflexivity.
+  - cbn [takeN]. destruct (N.eqb_spec a 0); [reflexivity|]. f_equal. apply IH. lia.
+Qed.
+
+Lemma N_of_byte_lt b : N_of_byte b < 256.
+Proof. unfold N_of_byte. pose proof (Byte.to_N_bounded b). lia. Qed.
+
+Lemma le_dec_lt bs : le_dec bs < 256 ^ len bs.
+Proof.
+  induction bs as [|b t IH]; cbn [le_dec len]; [cbn; lia|].
+  rewrite N.pow_succ_r'. pose proof (N_of_byte_lt b). nia.
+Qed.
+
+Lemma le_dec_u32 bs : len bs <= 4 -> le_dec bs < two32.
+Proof.
+  intro H. pose proof (le_dec_lt bs) as Hb.
+  assert (256 ^ len bs <= 256 ^ 4) by (apply N.pow_le_mono_r; lia).
+  unfold two32. change (256 ^ 4) with 4294967296 in *. lia.
+Qed.
+
+Lemma bool_items_shape b : shape_items TBool (bool_items b).
+Proof.
+  induction b as [|x t IH]; cbn [bool_items shape_items]; [exact I|].
+  split; [|exact IH]. cbn [shape_item]. split; [reflexivity|]. unfold fix_ok, norm_bool. destruct (is_nul x); tauto.
+Qed.
+
+Lemma split_items_shape ft sz : ft_fixed ft = true -> ft <> TBool -> cpp_size ft = sz ->
+  forall n w, len w = N.of_nat n * sz -> shape_items ft (split_items n sz w).
+Proof.
+  intros Hf Hb Hs. induction n as [|n IH]; intros w Hw; cbn [split_items shape_items]; [exact I|].
+  split.
+  - cbn [shape_item]. split; [exact Hf|]. unfold fix_ok. destruct ft; try congruence; rewrite len_takeN; lia.
+  - apply IH. rewrite len_dropN. lia.
+Qed.
+
 (* ------------------------------------------------------------------ the invariant *)
 Section Safety.
   Variable bs : bytes.
@@ -60,16 +169,17 @@ Section Safety.
 
   (* [F]: when does the fuel suffice;  [B]: 28 * (deepest level this call may record);  [P]: bytes a successful call
      consumes at least;  [E]: allocation the call may make beyond KA bytes per byte it consumes (paid for by bytes the
-     caller has consumed already).  The two allocation clauses: a successful call allocates at most KA per byte it
+     caller has consumed already);  [Q]: what holds of the value a successful call returns.  The two allocation clauses: a successful call allocates at most KA per byte it
      consumed (+E); a failing call at most KA per byte that was available to it (+E). *)
-  Definition post {A} (F : rdr -> Prop) (B : rdr -> N) (P E : N) (r : rdr) (l : log) (y : res A * rdr * log) : Prop :=
+  Definition post {A} (F : rdr -> Prop) (B : rdr -> N) (P E : N) (Q : A -> Prop) (r : rdr) (l : log) (y : res A * rdr * log) : Prop :=
     let '(x, r', l') := y in
     rok r' /\ frame r r' /\ lok l' /\ x <> Crash /\ (F r -> x <> Fuel) /\ l_ub l' = l_ub l /\
     (l_dp l' <= l_dp l \/ 28 * l_dp l' <= B r) /\ (forall a, x = Ok a -> r_rd r + P <= r_rd r') /\
     (forall a, x = Ok a -> l_al l' + KA * r_rd r <= l_al l + KA * r_rd r' + E) /\
-    (x = Err -> l_al l' <= l_al l + KA * avail r + E).
-  Definition safe {A} (F : rdr -> Prop) (B : rdr -> N) (P E : N) (m : M A) : Prop :=
-    forall r l, rok r -> lok l -> post F B P E r l (m r l).
+    (x = Err -> l_al l' <= l_al l + KA * avail r + E) /\
+    (forall a, x = Ok a -> Q a).
+  Definition safe {A} (F : rdr -> Prop) (B : rdr -> N) (P E : N) (Q : A -> Prop) (m : M A) : Prop :=
+    forall r l, rok r -> lok l -> post F B P E Q r l (m r l).
 
   Lemma NOLIM_val : NOLIM = 4294967295.  Proof. reflexivity. Qed.
   Lemma W_val : W = 4.  Proof. reflexivity. Qed.
@@ -83,6 +193,19 @@ Section Safety.
 
   Lemma lok_touch o k l : lok l -> o + k <= L -> lok (touch o k l).
   Proof. intros H Hb. unfold lok, touch; cbn [l_tr]. constructor; [exact Hb | exact H]. Qed.
+
+  Lemma len_slice o k : o + k <= L -> len (slice bs o k) = k.
+  Proof. intro H. unfold slice. rewrite len_takeN, len_dropN. fold L. lia. Qed.
+
+  Lemma fix_item_shape ft o k : ft_fixed ft = true -> ft <> TBool -> cpp_size ft = k -> o + k <= L ->
+    shape_item ft (IFix (slice bs o k)).
+  Proof.
+    intros Hf Hb Hs Ho. cbn [shape_item]. split; [exact Hf|]. unfold fix_ok.
+    destruct ft; try congruence; rewrite len_slice by lia; lia.
+  Qed.
+
+  Lemma slice_u32 o : le_dec (slice bs o 4) < two32.
+  Proof. apply le_dec_u32. unfold slice. rewrite len_takeN. lia. Qed.
 
   Lemma frame_refl r : frame r r.
   Proof. unfold frame; repeat split; lia. Qed.
@@ -179,7 +302,19 @@ Section Safety.
     try (let Hx := fresh "Hx" in intro Hx; try discriminate;
          repeat match goal with H : ?x = Err -> _ |- _ => specialize (H Hx) end;
          inst; avs; unfold rok, frame in *; rcbn; costs; divs; repeat brk; repeat brkh; lia).
-  Ltac fin := done_post; rest.
+  (* the value clause: the returned value is explicit; its shape follows from the facts collected about its parts *)
+  Ltac qfin :=
+    try (let a := fresh "a" in let E := fresh "E" in
+         intros a E; first [discriminate E | injection E as <-];
+         inst; cbn [shape_msg shape_fields shape_repr shape_item shape_items];
+         repeat match goal with |- _ /\ _ => split end;
+         auto using shape_items_snoc, shape_fields_snoc, bool_items_shape, slice_u32; try reflexivity; try exact I;
+         try (unfold fix_ok; cbn [cpp_size] in *; rewrite ?len_slice by (pose proof HL; unfold rok, frame in *; rcbn; lia); reflexivity);
+         try (unfold fix_ok; tauto);
+         try (apply split_items_shape; [reflexivity | discriminate | reflexivity |
+              rewrite len_slice by (pose proof HL; unfold rok, frame in *; rcbn; lia); rewrite N2Nat.id; lia]);
+         try (unfold fix_ok; brk; tauto)).
+  Ltac fin := done_post; rest; try (intros; exact I); qfin.
 
   (* use a [safe] fact [S] about the call [fn r' l'] that blocks the goal: proves the invariant of the intermediate
      state, destructs the call's result and leaves the components of its postcondition in the context *)
@@ -193,8 +328,8 @@ Section Safety.
       destruct (fn r' l') as [[x r2] l2]; unfold post in P;
       let P1 := fresh "Prok" in let P2 := fresh "Pfr" in let P3 := fresh "Plok" in let P4 := fresh "Pcr" in
       let P5 := fresh "Pfu" in let P6 := fresh "Pub" in let P7 := fresh "Pdp" in let P8 := fresh "Ppr" in
-      let P9 := fresh "Pao" in let P10 := fresh "Pae" in
-      destruct P as (P1 & P2 & P3 & P4 & P5 & P6 & P7 & P8 & P9 & P10);
+      let P9 := fresh "Pao" in let P10 := fresh "Pae" in let P11 := fresh "Pq" in
+      destruct P as (P1 & P2 & P3 & P4 & P5 & P6 & P7 & P8 & P9 & P10 & P11);
       let Ha2 := fresh "Ha" in pose proof (avail_ok r2 P1) as Ha2
     end.
 
@@ -221,7 +356,7 @@ Section Safety.
     destruct (N.eqb_spec n 4294967295); [lia|]. destruct (N.ltb_spec 0 n); lia.
   Qed.
 
-  Lemma rd_lp_string_safe : safe (fun _ => True) (fun _ => 0) 4 0 (rd_lp_string bs).
+  Lemma rd_lp_string_safe : safe (fun _ => True) (fun _ => 0) 4 0 nul_free (rd_lp_string bs).
   Proof.
     pose proof HL as HL'. intros r l Hr Hl. pose proof (avail_ok r Hr) as Ha. unfold rd_lp_string. rewrite W_val.
     brk; [|fin].
@@ -234,8 +369,10 @@ Section Safety.
     destruct (N.eqb_spec n0 0) as [Hz|Hz]; [fin; unfold rok in *; lia|].
     destruct (N.eqb_spec n0 4294967295) as [Hbig|_]; [unfold rok in Hr; lia|].
     match goal with |- context [nul_index ?w 0] => destruct (nul_index w 0) as [k|] eqn:Ek end.
-    - apply nul_index_bounds in Ek. unfold slice in Ek. rewrite len_takeN in Ek.
-      fin; unfold rok in *; lia.
+    - pose proof (nul_index_prefix _ _ _ Ek) as Hnf. rewrite N.sub_0_r in Hnf. unfold slice in Hnf.
+      apply nul_index_bounds in Ek. unfold slice in Ek. rewrite len_takeN in Ek.
+      rewrite takeN_takeN in Hnf by lia.
+      fin; try (unfold rok in *; lia).
     - fin; unfold rok in *; lia.
   Qed.
 
@@ -298,30 +435,38 @@ Section Safety.
 
 
   (* ---------------------------------------------------------------- the item loops *)
-  Lemma fix_items_loop_safe k : forall i n u rsz acc, 0 < rsz ->
-    safe (fuel_ok k) (fun _ => 0) 0 0 (fix_items_loop bs k i n u rsz acc).
+  Lemma fix_items_loop_safe k : forall i n u rsz acc ft, 0 < rsz ->
+    ft_fixed ft = true -> ft <> TBool -> cpp_size ft = rsz -> shape_items ft acc ->
+    safe (fuel_ok k) (fun _ => 0) 0 0 (shape_items ft) (fix_items_loop bs k i n u rsz acc).
   Proof.
-    pose proof HL as HL'. induction k as [|k IH]; intros i n u rsz acc Hrsz r l Hr Hl; pose proof (avail_ok r Hr) as Ha;
-      cbn [fix_items_loop]; brk; try (fin; fail).
+    pose proof HL as HL'. induction k as [|k IH]; intros i n u rsz acc ft Hrsz Hff Hfb Hfs Hacc r l Hr Hl; pose proof (avail_ok r Hr) as Ha;
+      cbn [fix_items_loop]; brk; try (fin; try (intros a E; injection E as <-; exact Hacc); fail).
     - fin. intro HF; unfold fuel_ok in HF; cbn in HF; lia.
     - unfold bnd at 1. unfold with_limit.
       destruct (limited_rok r u Hr) as [Hr0 Hu]. rewrite Hu in *.
       unfold rd_bytes. go; try (fin; fail).
+      match goal with |- context [fix_items_loop _ ?kk ?ii ?nn ?uu ?ss (items_snoc _ (IFix (slice _ ?o ?kx)))] =>
+        assert (Hsh : shape_items ft (items_snoc acc (IFix (slice bs o kx))))
+          by (apply shape_items_snoc; [exact Hacc | apply fix_item_shape; try assumption; unfold rok in *; lia])
+      end.
       match goal with |- context [fix_items_loop _ ?kk ?ii ?nn ?uu ?ss ?aa] =>
-        use (IH ii nn uu ss aa Hrsz) (fix_items_loop bs kk ii nn uu ss aa) end.
+        use (IH ii nn uu ss aa ft Hrsz Hff Hfb Hfs Hsh) (fix_items_loop bs kk ii nn uu ss aa) end.
       fin.
   Qed.
 
-  Lemma str_items_loop_safe k : forall i n acc, safe (fuel_ok k) (fun _ => 0) (4 * (n - i)) 0 (str_items_loop bs k i n acc).
+  Lemma str_items_loop_safe k : forall i n acc, shape_items TString acc ->
+    safe (fuel_ok k) (fun _ => 0) (4 * (n - i)) 0 (shape_items TString) (str_items_loop bs k i n acc).
   Proof.
-    pose proof HL as HL'. induction k as [|k IH]; intros i n acc r l Hr Hl; pose proof (avail_ok r Hr) as Ha;
+    pose proof HL as HL'. induction k as [|k IH]; intros i n acc Hacc r l Hr Hl; pose proof (avail_ok r Hr) as Ha;
       cbn [str_items_loop]; brk; try (fin; fail).
     - fin. intro HF; unfold fuel_ok in HF; cbn in HF; lia.
     - unfold bnd at 1.
       use rd_lp_string_safe (rd_lp_string bs).
       match goal with x : res bytes |- _ => destruct x as [s| | |] end; try (fin; fail).
-      + match goal with |- context [str_items_loop _ ?kk ?ii ?nn ?aa] =>
-          use (IH ii nn aa) (str_items_loop bs kk ii nn aa) end.
+      + assert (Hsh : shape_items TString (items_snoc acc (IStr s)))
+          by (apply shape_items_snoc; [exact Hacc | cbn [shape_item]; split; [reflexivity | apply (Pq s eq_refl)]]).
+        match goal with |- context [str_items_loop _ ?kk ?ii ?nn ?aa] =>
+          use (IH ii nn aa Hsh) (str_items_loop bs kk ii nn aa) end.
         fin.
   Qed.
 
@@ -358,20 +503,21 @@ Section Safety.
   Qed.
 
 
-  Lemma raw_items_loop_safe k : forall i n acc, safe (fuel_ok k) (fun _ => 0) 0 0 (raw_items_loop bs k i n acc).
+  Lemma raw_items_loop_safe k : forall i n acc, shape_items TRaw acc ->
+    safe (fuel_ok k) (fun _ => 0) 0 0 (shape_items TRaw) (raw_items_loop bs k i n acc).
   Proof.
-    pose proof HL as HL'. induction k as [|k IH]; intros i n acc r l Hr Hl; pose proof (avail_ok r Hr) as Ha;
+    pose proof HL as HL'. induction k as [|k IH]; intros i n acc Hacc r l Hr Hl; pose proof (avail_ok r Hr) as Ha;
       cbn [raw_items_loop]; brk; try (fin; fail).
     - fin. intro HF; unfold fuel_ok in HF; cbn in HF; lia.
     - prims. rewrite W_val, NOLIM_val. unfold two32.
       assert (Hr4 : 4 <= avail r -> rok (adv 4 r)) by (intro; rokt).
       go.
-      all: try (done_post; rest; fail).
-      all: try (pose proof (avail_ok _ (Hr4 ltac:(assumption))) as Ha4; rcbn).
+      all: try (fin; fail).
       all: try (exfalso; unfold rok in *; lia).
-      all: match goal with |- context [raw_items_loop _ ?kk ?i' ?nn ?acc'] =>
-             use (IH i' nn acc') (raw_items_loop bs kk i' nn acc') end.
-      all: done_post; rest.
+      all: match goal with |- context [raw_items_loop _ ?kk ?i' ?nn (items_snoc _ (IRaw ?b))] =>
+             assert (Hsh : shape_items TRaw (items_snoc acc (IRaw b))) by (apply shape_items_snoc; [exact Hacc | reflexivity]);
+             use (IH i' nn (items_snoc acc (IRaw b)) Hsh) (raw_items_loop bs kk i' nn (items_snoc acc (IRaw b))) end.
+      all: fin.
   Qed.
 
   (* ---------------------------------------------------------------- one nesting level, given the next *)
@@ -383,31 +529,32 @@ Section Safety.
     Hypothesis Hfx16 : fx16 fx = true.
     Variable inner : N -> M msg.
     Variable lf : nat.
-    Hypothesis Hinner : forall d, safe (fuel_ok lf) (fun r => 28 * d + avail r) 0 0 (inner d).
+    Hypothesis Hinner : forall d, safe (fuel_ok lf) (fun r => 28 * d + avail r) 0 0 shape_msg (inner d).
 
-    Lemma msg_items_loop_safe k : (k <= lf)%nat -> forall d acc,
-      safe (fuel_ok k) (fun r => 28 * d + avail r + 24) 0 0 (msg_items_loop bs inner k d acc).
+    Lemma msg_items_loop_safe k : (k <= lf)%nat -> forall d acc, shape_items TMessage acc ->
+      safe (fuel_ok k) (fun r => 28 * d + avail r + 24) 0 0 (shape_items TMessage) (msg_items_loop bs inner k d acc).
     Proof.
-      pose proof HL as HL'. induction k as [|k IH]; intros Hk d acc r l Hr Hl; pose proof (avail_ok r Hr) as Ha.
-      - cbn [msg_items_loop]. prims. go; try (done_post; rest; fail).
-        done_post; rest. intro HF; unfold fuel_ok in HF; cbn in HF; lia.
+      pose proof HL as HL'. induction k as [|k IH]; intros Hk d acc Hacc r l Hr Hl; pose proof (avail_ok r Hr) as Ha.
+      - cbn [msg_items_loop]. prims. go; try (fin; fail).
+        fin. intro HF; unfold fuel_ok in HF; cbn in HF; lia.
       - cbn [msg_items_loop]. prims. rewrite W_val.
         assert (Hr4 : 4 <= avail r -> rok (adv 4 r)) by (intro; rokt).
         go.
-        all: try (done_post; rest; fail).
-        all: try (pose proof (avail_ok _ (Hr4 ltac:(assumption))) as Ha4; rcbn).
+        all: try (fin; fail).
         all: try (exfalso; unfold rok in *; lia).
         unfold with_limit.
         match goal with |- context [set_max (u32 (r_rd ?r0 + N.min ?lim (avail ?r0))) ?r0] =>
           destruct (limited_rok r0 lim (Hr4 ltac:(assumption))) as [Hrl Hu]; rewrite Hu in * end.
         rcbn.
         use (Hinner (d + 1)) (inner (d + 1)).
-        destruct x as [m| | |]; rcbn.
+        match goal with x : res msg |- _ => destruct x as [m| | |] end; rcbn.
         4:{ exfalso. apply Pcr. reflexivity. }
-        1:{ match goal with |- context [msg_items_loop _ _ ?kk ?dd ?acc'] =>
-              use (IH ltac:(lia) dd acc') (msg_items_loop bs inner kk dd acc') end.
-            done_post; rest. }
-        all: done_post; rest.
+        1:{ assert (Hsh : shape_items TMessage (items_snoc acc (IMsg m)))
+              by (apply shape_items_snoc; [exact Hacc | cbn [shape_item]; split; [reflexivity | apply (Pq m eq_refl)]]).
+            match goal with |- context [msg_items_loop _ _ ?kk ?dd ?acc'] =>
+              use (IH ltac:(lia) dd acc' Hsh) (msg_items_loop bs inner kk dd acc') end.
+            fin. }
+        all: fin.
     Qed.
 
     Lemma cpp_size_pos ft : ft_fixed ft = true -> 0 < cpp_size ft.
@@ -418,23 +565,23 @@ Section Safety.
     (* MessageField::Unflatten calls SingleUnflatten only when GetNumItemsInFlattenedBuffer said 1, which for a
        sub-Message needs its 4-byte length word to be there *)
     Lemma unflat_single_safe ft d : forall r l, rok r -> lok l -> (ft = TMessage -> 4 <= avail r) ->
-      post (fuel_ok lf) (fun r => 28 * d + avail r + 24) 0 0 r l (unflat_single bs inner ft d r l).
+      post (fuel_ok lf) (fun r => 28 * d + avail r + 24) 0 0 (shape_item ft) r l (unflat_single bs inner ft d r l).
     Proof.
       pose proof HL as HL'. intros r l Hr Hl Hpre; pose proof (avail_ok r Hr) as Ha.
       assert (Hr4 : 4 <= avail r -> rok (adv 4 r)) by (intro; rokt).
       unfold unflat_single.
       destruct ft; try specialize (Hpre eq_refl); unfold sub_reader, fresh_reader; prims; rewrite ?W_val, ?NOLIM_val; unfold two32.
-      all: try (go; try (done_post; rest; fail)).
+      all: try (go; try (fin; fail)).
       all: try (exfalso; lia).
-      all: try (use (Hinner (d + 1)) (inner (d + 1)); match goal with x : res msg |- _ => destruct x end; go; try (done_post; rest; fail)).
-      all: try (use rd_lp_string_safe (rd_lp_string bs); match goal with x : res bytes |- _ => destruct x end; go; try (done_post; rest; fail)).
+      all: try (use (Hinner (d + 1)) (inner (d + 1)); match goal with x : res msg |- _ => destruct x end; go; try (fin; fail)).
+      all: try (use rd_lp_string_safe (rd_lp_string bs); match goal with x : res bytes |- _ => destruct x end; go; try (fin; fail)).
     Qed.
 
     Ltac sizes := cbn [cpp_size] in *; unfold c_SIZEOF_bool, c_SIZEOF_double, c_SIZEOF_float, c_SIZEOF_int64, c_SIZEOF_int32,
                     c_SIZEOF_int16, c_SIZEOF_int8, c_POINT_FLATTENED_SIZE, c_RECT_FLATTENED_SIZE, c_SIZEOF_Point, c_SIZEOF_Rect in *.
 
     Lemma unflat_array_safe ft d : ft <> TPointer -> ft <> TTag ->
-      safe (fuel_ok lf) (fun r => 28 * d + avail r + 24) 0 0 (unflat_array bs fx inner lf ft d).
+      safe (fuel_ok lf) (fun r => 28 * d + avail r + 24) 0 0 (shape_items ft) (unflat_array bs fx inner lf ft d).
     Proof.
       pose proof HL as HL'. intros Hp Ht r l Hr Hl; pose proof (avail_ok r Hr) as Ha.
       assert (Hr4 : 4 <= avail r -> rok (adv 4 r)) by (intro; rokt).
@@ -446,14 +593,16 @@ Section Safety.
                  let q := fresh "q" in set (q := avail rr / c) in *; clearbody q end.
       all: go; try (fin; fail).
       all: try match goal with |- context [fix_items_loop _ ?k ?i ?n ?u ?s ?acc] =>
-             use_t (fix_items_loop_safe k i n u s acc ltac:(lia))
-                   (fun r l Hr Hl => fix_items_loop_tight k i n u s acc r l Hr Hl ltac:(lia)) (fix_items_loop bs k i n u s acc) end.
+             first [ use_t (fix_items_loop_safe k i n u s acc TPoint ltac:(lia) eq_refl ltac:(discriminate) eq_refl I)
+                           (fun r l Hr Hl => fix_items_loop_tight k i n u s acc r l Hr Hl ltac:(lia)) (fix_items_loop bs k i n u s acc)
+                   | use_t (fix_items_loop_safe k i n u s acc TRect ltac:(lia) eq_refl ltac:(discriminate) eq_refl I)
+                           (fun r l Hr Hl => fix_items_loop_tight k i n u s acc r l Hr Hl ltac:(lia)) (fix_items_loop bs k i n u s acc) ] end.
       all: try match goal with |- context [msg_items_loop _ _ ?k ?dd ?acc] =>
-             use (msg_items_loop_safe k (le_n k) dd acc) (msg_items_loop bs inner k dd acc) end.
+             use (msg_items_loop_safe k (le_n k) dd acc I) (msg_items_loop bs inner k dd acc) end.
       all: try match goal with |- context [str_items_loop _ ?k ?i ?n ?acc] =>
-             use_t (str_items_loop_safe k i n acc) (str_items_loop_tight k i n acc) (str_items_loop bs k i n acc) end.
+             use_t (str_items_loop_safe k i n acc I) (str_items_loop_tight k i n acc) (str_items_loop bs k i n acc) end.
       all: try match goal with |- context [raw_items_loop _ ?k ?i ?n ?acc] =>
-             use (raw_items_loop_safe k i n acc) (raw_items_loop bs k i n acc) end.
+             use (raw_items_loop_safe k i n acc I) (raw_items_loop bs k i n acc) end.
       all: match goal with x : res items |- _ => destruct x end; go; try (fin; fail).
     Qed.
 
@@ -481,11 +630,11 @@ Section Safety.
     Qed.
 
     Lemma unflat_field_safe tc d :
-      safe (fuel_ok lf) (fun r => 28 * d + avail r + 24) 0 cost_arr (unflat_field bs fx inner lf tc d).
+      safe (fuel_ok lf) (fun r => 28 * d + avail r + 24) 0 cost_arr (shape_repr (ftype_of_tc tc)) (unflat_field bs fx inner lf tc d).
     Proof.
       pose proof HL as HL'. intros r l Hr Hl; pose proof (avail_ok r Hr) as Ha.
       unfold unflat_field. rewrite Hfx16. cbn [andb].
-      destruct (is_ptr_or_tag tc) eqn:Ept; [done_post; rest|].
+      destruct (is_ptr_or_tag tc) eqn:Ept; [fin|].
       destruct (ftype_ptr_tag tc Ept) as [Hnp Hnt].
       set (ft := ftype_of_tc tc) in *.
       destruct (num_items_spec ft r l Hr Hl) as (n & l' & En & Hl' & Eal & Edp & Eub & Hn4).
@@ -494,17 +643,17 @@ Section Safety.
       - unfold bnd.
         pose proof (unflat_single_safe ft d r l' Hr Hl' ltac:(intro E; apply Hn4; assumption)) as P.
         destruct (unflat_single bs inner ft d r l') as [[x r2] l2]. unfold post in P.
-        destruct P as (P1 & P2 & P3 & P4 & P5 & P6 & P7 & P8 & P9 & P10).
-        destruct x; prims; go; done_post; rest.
+        destruct P as (P1 & P2 & P3 & P4 & P5 & P6 & P7 & P8 & P9 & P10 & P11).
+        destruct x; prims; go; fin.
       - unfold sub_reader. prims. rewrite NOLIM_val. go.
         replace (N.min 4294967295 (avail r)) with (avail r) by (unfold rok in *; lia).
         use (unflat_array_safe ft d Hnp Hnt) (unflat_array bs fx inner lf ft d).
-        match goal with x : res items |- _ => destruct x end; go; done_post; rest.
+        match goal with x : res items |- _ => destruct x end; go; fin.
     Qed.
 
     (* DataUnflattenerReadLimiter(unflat, eLength) around unflat.ReadFlat(field) *)
     Lemma field_window_safe tc elen d :
-      safe (fuel_ok lf) (fun r => 28 * d + avail r + 24) 0 cost_arr
+      safe (fuel_ok lf) (fun r => 28 * d + avail r + 24) 0 cost_arr (shape_repr (ftype_of_tc tc))
            (with_limit elen (sub_reader NOLIM (unflat_field bs fx inner lf tc d))).
     Proof.
       pose proof HL as HL'. intros r l Hr Hl; pose proof (avail_ok r Hr) as Ha.
@@ -512,46 +661,52 @@ Section Safety.
       unfold sub_reader. rewrite NOLIM_val. rcbn. avs.
       match goal with |- context [N.min 4294967295 ?a] => replace (N.min 4294967295 a) with a by (unfold rok in *; lia) end.
       use (unflat_field_safe tc d) (unflat_field bs fx inner lf tc d).
-      match goal with x : res repr |- _ => destruct x end; go; done_post; rest.
+      match goal with x : res repr |- _ => destruct x end; go; fin.
     Qed.
 
-    Lemma entries_loop_safe k : (k <= lf)%nat -> forall i n pend d acc, pend <= tbl_default ->
-      safe (fuel_ok k) (fun r => 28 * d + avail r + 12) 0 0 (entries_loop bs fx inner lf k i n pend d acc).
+    Lemma entries_loop_safe k : (k <= lf)%nat -> forall i n pend d acc, pend <= tbl_default -> shape_fields acc ->
+      safe (fuel_ok k) (fun r => 28 * d + avail r + 12) 0 0 shape_fields (entries_loop bs fx inner lf k i n pend d acc).
     Proof.
-      pose proof HL as HL'. induction k as [|k IH]; intros Hk i n pend d acc Hpend r l Hr Hl; pose proof (avail_ok r Hr) as Ha;
+      pose proof HL as HL'. induction k as [|k IH]; intros Hk i n pend d acc Hpend Hacc r l Hr Hl; pose proof (avail_ok r Hr) as Ha;
         cbn [entries_loop]; brk; try (fin; fail).
       - fin. intro HF; unfold fuel_ok in HF; cbn in HF; lia.
       - unfold bnd at 1.
         use_t rd_lp_string_safe rd_lp_string_facts (rd_lp_string bs).
         destruct Ht as [Ht Hn].
         match goal with x : res bytes |- _ => destruct x as [name| | |] end; try (fin; fail).
-        specialize (Ppr name eq_refl). specialize (Hn name eq_refl).
+        specialize (Ppr name eq_refl). specialize (Hn name eq_refl). pose proof (Pq name eq_refl) as Hname.
         prims. rewrite ?W_val. go; try (fin; fail).
-        all: destruct (flookup name acc) as [[tc' rp']|]; cbv beta iota zeta; go; try (fin; fail).
+        all: destruct (flookup name acc) as [[tc' rp']|] eqn:Efl; cbv beta iota zeta; go; try (fin; fail).
         all: match goal with |- context [with_limit ?el (sub_reader NOLIM (unflat_field _ _ _ _ ?tcx ?dd))] =>
                use (field_window_safe tcx el dd) (with_limit el (sub_reader NOLIM (unflat_field bs fx inner lf tcx dd))) end.
-        all: match goal with x : res repr |- _ => destruct x end; go; try (fin; fail).
-        all: try match goal with |- context [entries_loop _ _ _ _ ?kk ?ii ?nn ?pp ?dd ?aa] =>
-               use (IH ltac:(lia) ii nn pp dd aa Hpend) (entries_loop bs fx inner lf kk ii nn pp dd aa) end.
+        all: match goal with x : res repr |- _ => destruct x as [rp| | |] end; go; try (fin; fail).
+        all: try match goal with |- context [entries_loop _ _ _ _ ?kk ?ii ?nn ?pp ?dd (fset ?nm ?tcx ?rpx ?ac)] =>
+               assert (Hsh : shape_fields (fset nm tcx rpx ac))
+                 by (apply shape_fields_set; [exact Hacc | intros t2 r2 E2; rewrite Efl in E2; injection E2; congruence | apply (Pq0 rpx eq_refl)]);
+               use (IH ltac:(lia) ii nn pp dd (fset nm tcx rpx ac) Hpend Hsh) (entries_loop bs fx inner lf kk ii nn pp dd (fset nm tcx rpx ac)) end.
+        all: try match goal with |- context [entries_loop _ _ _ _ ?kk ?ii ?nn ?pp ?dd (fsnoc ?ac ?nm ?tcx ?rpx)] =>
+               assert (Hsh : shape_fields (fsnoc ac nm tcx rpx))
+                 by (apply shape_fields_snoc; [exact Hacc | exact Hname | apply slice_u32 | apply (Pq0 rpx eq_refl)]);
+               use (IH ltac:(lia) ii nn pp dd (fsnoc ac nm tcx rpx) Hpend Hsh) (entries_loop bs fx inner lf kk ii nn pp dd (fsnoc ac nm tcx rpx)) end.
         all: try (fin; fail).
     Qed.
 
-    Lemma msg_level_safe d : safe (fuel_ok (S lf)) (fun r => 28 * d + avail r) 0 0 (msg_level bs fx inner lf d).
+    Lemma msg_level_safe d : safe (fuel_ok (S lf)) (fun r => 28 * d + avail r) 0 0 shape_msg (msg_level bs fx inner lf d).
     Proof.
       pose proof HL as HL'. intros r l Hr Hl; pose proof (avail_ok r Hr) as Ha.
       unfold msg_level. prims. rewrite ?W_val. cbv beta iota zeta. rcbn.
       brk; cbv beta iota zeta; rcbn; avs.
-      all: match goal with |- context [if negb ?c then _ else _] => destruct c; cbn [negb] end; try (done_post; rest; fail).
-      all: go; try (done_post; rest; fail).
+      all: match goal with |- context [if negb ?c then _ else _] => destruct c; cbn [negb] end; try (fin; fail).
+      all: go; try (fin; fail).
       all: match goal with |- context [entries_loop _ _ _ _ ?kk ?ii ?nn ?pp ?dd ?aa] =>
-             use (entries_loop_safe kk (le_n kk) ii nn pp dd aa ltac:(rewrite ?Hfx14; lia)) (entries_loop bs fx inner lf kk ii nn pp dd aa) end.
-      all: match goal with x : res fields |- _ => destruct x end; go; try (done_post; rest; fail).
+             use (entries_loop_safe kk (le_n kk) ii nn pp dd aa ltac:(rewrite ?Hfx14; lia) I) (entries_loop bs fx inner lf kk ii nn pp dd aa) end.
+      all: match goal with x : res fields |- _ => destruct x end; go; try (fin; fail).
     Qed.
   End LevelSafe.
 
   (* ---------------------------------------------------------------- Message::Unflatten, every nesting depth *)
   Lemma unflat_msg_safe fx : fx1 fx = true -> fx14 fx = true -> fx15 fx = true -> fx16 fx = true -> forall fuel d,
-    safe (fuel_ok fuel) (fun r => 28 * d + avail r) 0 0 (unflat_msg bs fx fuel d).
+    safe (fuel_ok fuel) (fun r => 28 * d + avail r) 0 0 shape_msg (unflat_msg bs fx fuel d).
   Proof.
     intros H1 H14 H15 H16. induction fuel as [|f IH]; intro d.
     - intros r l Hr Hl. cbn [unflat_msg]. fin. intro HF; unfold fuel_ok in HF; cbn in HF; lia.
@@ -569,7 +724,7 @@ Section Safety.
   Qed.
 
   Lemma unflatten_post fx : fx1 fx = true -> fx14 fx = true -> fx15 fx = true -> fx16 fx = true ->
-    post (fuel_ok (S (length bs))) (fun r => 28 * 0 + avail r) 0 0 (reader0 bs) log0 (unflatten_i bs fx).
+    post (fuel_ok (S (length bs))) (fun r => 28 * 0 + avail r) 0 0 shape_msg (reader0 bs) log0 (unflatten_i bs fx).
   Proof.
     intros H1 H14 H15 H16. destruct reader0_ok as (Hr & Hl & _).
     unfold unflatten_i. apply (unflat_msg_safe fx H1 H14 H15 H16 (S (length bs)) 0 _ _ Hr Hl).
@@ -625,11 +780,26 @@ Proof.
   intros bs Hb. pose proof (unflatten_post bs Hb fixed eq_refl eq_refl eq_refl eq_refl) as P.
   destruct (reader0_ok bs Hb) as (_ & _ & HF & Ha).
   unfold allocated, log_of. destruct (unflatten_i bs fixed) as [[x r] l]. cbn [snd].
-  unfold post in P. destruct P as (Pr & Pf & _ & Pc & Pfu & _ & _ & _ & Pao & Pae).
+  unfold post in P. destruct P as (Pr & Pf & _ & Pc & Pfu & _ & _ & _ & Pao & Pae & _).
   unfold rok, frame, reader0 in *. cbn [r_base r_rd r_max l_al log0] in *.
   destruct x as [m| | |].
   - specialize (Pao m eq_refl). unfold KA in *. lia.
   - specialize (Pae eq_refl). rewrite Ha in Pae. lia.
   - exfalso. apply (Pfu HF). reflexivity.
   - exfalso; apply Pc; reflexivity.
+Qed.
+
+(* totality: the parser ends with a Message of the right shape or with an error status -- nothing else *)
+Theorem parse_total_proof : forall bs, fits bs ->
+  (exists m, result_of (unflatten_i bs fixed) = Ok m /\ shape_msg m) \/ result_of (unflatten_i bs fixed) = Err.
+Proof.
+  intros bs Hb. pose proof (unflatten_post bs Hb fixed eq_refl eq_refl eq_refl eq_refl) as P.
+  destruct (reader0_ok bs Hb) as (_ & _ & HF & _).
+  unfold result_of. destruct (unflatten_i bs fixed) as [[x r] l]. cbn [fst].
+  unfold post in P. destruct P as (_ & _ & _ & Pc & Pfu & _ & _ & _ & _ & _ & Pq).
+  destruct x as [m| | |].
+  - left. exists m. split; [reflexivity | apply Pq; reflexivity].
+  - right. reflexivity.
+  - exfalso. apply (Pfu HF). reflexivity.
+  - exfalso. apply Pc. reflexivity.
 Qed.
